@@ -106,7 +106,10 @@ def _run_impl(d) -> Any:
     def pyval(v):
         return objs[v - OBJ0] if v >= OBJ0 else v
 
-    def mk_callee(pred, params, defaults_list, tbl, log, cname):
+    def mk_callee(pred, params, defaults_list, tbl, log, cname, style="dataclass"):
+        """style (Predicate subclasses only): 'dataclass' = fields in parameter order; 'handinit' = hand-written __init__ whose
+        parameter order is the REVERSE of the field order; 'kwbase' = the last parameter is a kw_only field inherited from a base
+        predicate (first in dataclasses.fields, last and keyword-only in __init__)"""
         defaults = dict((p, v) for p, v in defaults_list)
 
         def body(vals):
@@ -117,6 +120,23 @@ def _run_impl(d) -> Any:
                 code = (v % 3) + 3 * code
             return tbl[code % len(tbl)]
 
+        if pred and style == "handinit":
+            sig = ", ".join(pname(p) + (f"=_d[{p}]" if p in defaults else "") for p in params)
+            src = (f"@dataclasses.dataclass(eq=False, init=False)\nclass {cname}(Predicate):\n"
+                   + "".join(f"    {pname(p)}: Any\n" for p in reversed(params))
+                   + f"    def __init__(self, {sig}):\n" + "".join(f"        self.{pname(p)} = {pname(p)}\n" for p in params)
+                   + f"    def __call__(self):\n        return _body([{', '.join('self.' + pname(p) for p in params)}])\n")
+            ns = {"_body": body, "_d": {p: pyval(v) for p, v in defaults.items()}, "dataclasses": dataclasses, "Predicate": Predicate, "Any": Any}
+            exec(src, ns)
+            return ns[cname]
+        if pred and style == "kwbase":
+            last = params[-1]
+            kwf = dataclasses.field(default=pyval(defaults[last]), kw_only=True) if last in defaults else dataclasses.field(kw_only=True)
+            base = dataclasses.make_dataclass(cname + "Base", [(pname(last), Any, kwf)], bases=(Predicate,), eq=False)
+            fields = [(pname(p), Any, dataclasses.field(default=pyval(defaults[p]))) if p in defaults else (pname(p), Any) for p in params[:-1]]
+            return dataclasses.make_dataclass(
+                cname, fields, bases=(base,), eq=False,
+                namespace={"__call__": lambda self: body([getattr(self, pname(p)) for p in params])})
         if pred:
             fields = []
             for p in params:
@@ -133,7 +153,7 @@ def _run_impl(d) -> Any:
         return symbolic_function(ns[cname.lower()])
 
     log: List[List[int]] = []
-    callee = mk_callee(d["pred"], d["params"], d["defaults"], d["tbl"], log, "Pr" if d["pred"] else "Fn")
+    callee = mk_callee(d["pred"], d["params"], d["defaults"], d["tbl"], log, "Pr" if d["pred"] else "Fn", d.get("style", "dataclass"))
 
     variables = {}
     for k, dom in d["doms"].items():
@@ -166,6 +186,26 @@ def _run_impl(d) -> Any:
             c = c()
         return [0, _enc(c), [list(c) for c in log]]
     at_construction = len(log) + len(ilog)
+    if d.get("select_call"):
+        # the call is a SELECTED expression: one row per candidate binding, the call's plain result last; evaluated twice
+        conds = [getattr(variables[x], "a") >= 0 for x in d["pre"]]
+        sel = [variables[x] for x in d["sel"]] + [c]
+        q = an(set_of(sel, *conds))
+        both = []
+        for _ in range(2):
+            rows, err = [], 0
+            try:
+                for r in q.evaluate():
+                    rows.append([_code(r[v]) for v in sel])
+            except TypeError:
+                err = -1
+            both.append((rows, err))
+        (rows, err), (rows2, err2) = both
+        if at_construction:
+            err = at_construction
+        elif sorted(rows2) != sorted(rows) or err2 != err:
+            err = -3            # the second evaluation of the same query object differs from the first
+        return [1, err, [list(c) for c in log], rows]
     if d.get("neg"):
         from krrood.entity_query_language.entity import not_
         c = not_(c)
@@ -300,9 +340,49 @@ def gen_cases(tier: str, seed: int) -> List[dict]:
                 for k, kws in call_shapes(n, ndef):
                     written = k + len(kws)
                     for symmask in range(1 << written):
-                        out.append(fill(rng, pred, n, ndef, k, kws, symmask, "distinct"))
+                        out.append(styled(rng, fill(rng, pred, n, ndef, k, kws, symmask, "distinct")))
                         if bin(symmask).count("1") >= 2 and (tier != "quick" or n <= 3):
-                            out.append(fill(rng, pred, n, ndef, k, kws, symmask, "shared"))
+                            out.append(styled(rng, fill(rng, pred, n, ndef, k, kws, symmask, "shared")))
+    return out
+
+
+def styled(rng: core.Rng, d: dict) -> dict:
+    """Predicate subclasses whose __init__ order differs from their dataclass field order (see mk_callee)"""
+    if d["pred"] and len(d["params"]) >= 2:
+        r = rng.randint(0, 3)
+        if r == 2:
+            d["style"] = "handinit"
+        elif r == 3:
+            d["style"] = "kwbase"
+            n = len(d["params"])
+            if len(d["pos"]) == n:      # the inherited kw_only parameter cannot be given positionally
+                d["kw"] = d["kw"] + [[n, d["pos"][-1]]]
+                d["pos"] = d["pos"][:-1]
+    return d
+
+
+def gen_selected(tier: str, seed: int) -> List[dict]:
+    """an(set_of([x, y, f(x, y)], ...)): the call is a selected expression (its plain result, falsy ones included, is a column);
+    every variable is bound by an earlier conjunct; the query object is evaluated twice.  Outside the model: implementation vs Spec."""
+    rng = core.Rng(seed).fork(55)
+    out = []
+    for rep_ in range(1 if tier == "quick" else 4):
+        for pred in (False, True):
+            for n in range(1, 4):
+                for ndef in range(0, n + 1):
+                    for k, kws in call_shapes(n, ndef):
+                        written = k + len(kws)
+                        if written == 0:
+                            continue
+                        symmask = rng.randint(1, (1 << written) - 1)
+                        d = styled(rng, fill(rng, pred, n, ndef, k, list(kws), symmask, "shared" if rng.chance(0.4) else "distinct"))
+                        used = sorted({v for a in d["pos"] + [a for _, a in d["kw"]] for v in arg_vars(a)})
+                        d["pre"], d["sel"], d["select_call"] = used, used, True
+                        _, doms = gen_world(rng, 2)
+                        doms = {x: [i for i in dom if i < len(d["objs"])] or [0] for x, dom in doms.items()}
+                        d["doms"] = {str(v): d["doms"].get(str(v), doms[str(v)]) for v in used}
+                        d["tbl"] = [rng.choice([0, 0, 1, 2]) for _ in d["tbl"]]
+                        out.append(d)
     return out
 
 
@@ -472,7 +552,10 @@ def run(tier: str, seed: int, replay=None) -> int:
                 "parameters are omitted x keyword order (natural / reversed) x every variable/concrete split (quick N=3, thorough N=4); per combination one "
                 "case with each symbolic argument over its own or an already bound variable and, for >= 2 symbolic arguments, one where they share an open variable; "
                 "worlds, attribute chains, defaults and the body's truth table drawn from VERIF_SEED; plus a malformed stream (impl vs model only) and a "
-                "nested-call stream f(g(x)), Pred(h(x), y), optionally under not_, inner results 0/1/2 with 0 falsy (outside the model: impl vs Spec = concrete composition). "
+                "nested-call stream f(g(x)), Pred(h(x), y), optionally under not_, inner results 0/1/2 with 0 falsy (outside the model: impl vs Spec = concrete composition) "
+                "and a selected-call stream an(set_of([x, y, f(x, y)], ...)) evaluated twice, falsy results included (outside the model: impl vs Spec). "
+                "Predicate subclasses of arity >= 2 are dataclasses in parameter order (1/2), classes with a hand-written __init__ in the reverse of the field order (1/4) "
+                "or subclasses of a base predicate with a kw_only field (1/4). "
                 "distinct = distinct case description; non-trivial = concrete call, or symbolic with >= 2 different calls of which at least one is true and one false")
     ok_spec, log = core.coq_make(["Base/Sx.vo", "Eql/PredSpec.vo", "Eql/PredCase.vo"])
     rep.oblige("build:spec", ok_spec, "" if ok_spec else core.first_error(log))
@@ -505,9 +588,10 @@ def run(tier: str, seed: int, replay=None) -> int:
             for p in sorted(cdir.glob("*.json")):
                 if not p.name.startswith("kf_"):
                     descrs.append(json.loads(p.read_text())["case"])
-        descrs += gen_cases(tier, seed) + gen_malformed(tier, seed) + gen_nested(tier, seed)
+        descrs += gen_cases(tier, seed) + gen_malformed(tier, seed) + gen_nested(tier, seed) + gen_selected(tier, seed)
     nested = [d for d in descrs if d.get("inner")]
-    descrs = [d for d in descrs if not d.get("inner")]
+    selected = [d for d in descrs if d.get("select_call")]
+    descrs = [d for d in descrs if not d.get("inner") and not d.get("select_call")]
     cases = [make_case(d) for d in descrs]
     codes = core.coq_codes(PROP, header, "pcase", fn, [(c.term, core.sx(c.impl)) for c in cases], chunk=250)
 
@@ -571,6 +655,29 @@ def run(tier: str, seed: int, replay=None) -> int:
         rep.violation({"kind": "counterexample", "case": c.descr, "impl": c.impl, "spec": spec, "model": None, "code": 300 + code,
                        "python": c.snippet, "explanation": "nested call (class 3, outside the model): outcome [1, err, inner calls (compared as a set), "
                        "outer calls, rows]; the nested argument is written as variable 99 in the outer call; Spec = the concrete composition. " + EXPLAIN})
+    # selected call results: outside the model; implementation vs Spec
+    scases = [Case(term=case_term(d), impl=run_impl(d), descr=d, snippet=snippet(d), key=json.dumps(d, sort_keys=True)) for d in selected]
+    scodes = core.coq_codes(PROP, HEADER_SPEC, "pcase", "case_code_selected", [(c.term, core.sx(c.impl)) for c in scases],
+                            chunk=250, tag="sel") if scases else []
+    dist.update({"selected_call": len(scases), "selected_call_falsy_result_on_a_row": 0})
+    sbad = []
+    for c, code in zip(scases, scodes):
+        ok_shape = c.impl[0] == 1 and len(c.impl) == 4
+        rep.count(c.key, ok_shape and len(c.impl[3]) > 1)
+        dist["selected_call_falsy_result_on_a_row"] += ok_shape and any(r[-1] == 0 for r in c.impl[3])
+        if code != 0:
+            sbad.append((c, code))
+    sbad.sort(key=lambda cc: len(cc[0].key))
+    for c, code in sbad[:3]:
+        try:
+            spec = core.coq_eval_sx(PROP, HEADER_SPEC, [f"spec_selected ({c.term})"])[0]
+        except Exception as e:  # noqa
+            spec = f"<{e}>"
+        rep.violation({"kind": "counterexample", "case": c.descr, "impl": c.impl, "spec": spec, "model": None, "code": 400 + code,
+                       "python": c.snippet, "explanation": "selected call result (class 4, outside the model): an(set_of([vars..., f(...)], conjuncts binding the "
+                       "variables)) evaluated twice; outcome [1, err (-3: second evaluation differs from the first), calls (as a set), rows = variables + "
+                       "[plain result]]; Spec = one row per candidate binding. " + EXPLAIN})
+    dist["predicate_styles"] = {st: sum(1 for c in cases if c.descr.get("style", "dataclass") == st and c.descr["pred"]) for st in ("dataclass", "handinit", "kwbase")}
     rep.extra["distribution"] = dist
     rep.extra["exhaustive_note"] = "call shapes exhaustive up to the stated arity; worlds and expressions sampled"
     step = max(1, len(cases) // 6)
